@@ -1901,6 +1901,14 @@ class unyt_array(np.ndarray):
             if u1 is None and ufunc is not power:
                 u1 = Unit(registry=getattr(u0, "registry", None))
             elif ufunc is power:
+                if (
+                    isinstance(inp1, unyt_array)
+                    and inp1.units.is_dimensionless
+                    and inp1.units.base_value != 1.0
+                ):
+                    # an exponent in percent (or another scaled dimensionless
+                    # unit) is a pure number: 50 percent means 0.5
+                    inp1 = inp1.in_units(Unit(registry=inp1.units.registry))
                 u1 = inp1
                 if inp0.shape == () or inp1.shape == ():
                     if isinstance(u1, unyt_array) and not u1.units.is_dimensionless:
